@@ -317,6 +317,7 @@ def run(ck: Checker) -> None:
     ck.guard("R-ENUM-SHAPE", lambda: T.r_enum_shape(ck))
     from . import state_rules as S
     ck.guard("R-FULLTRAV", lambda: S.r_pruned_walk(ck, "R-FULLTRAV", [(NODE, "_eq_fn")], "== compares the origins at every position"))
+    ck.guard("R-FULLTRAV", lambda: S.r_position_not_by_content(ck, "R-FULLTRAV", [(NODE, "ASTNode.dfs"), (NODE, "ASTNode.bfs"), (NODE, "_eq_fn")]))
     ck.guard("R-EQ-FORM", lambda: S.r_unstable_key(ck, "R-EQ-FORM", [(NODE, "_eq_fn"), (NODE, "_hash_fn")], "== is decided by the two trees as they are now"))
     ck.require_count("R-EQ-FORM", 2)
     ck.require_count("R-FULLTRAV", 1)
